@@ -16,7 +16,7 @@ import register_crypto_plugin as plugin
 LEVEL = "exploration"
 RULE = ("E1: ('len', L, zrun, key, framing, decl) = full product of every content length 1..N x trailing-zero run {0,1,2,15,16,17} (all-zero "
         "content when the run covers it) x 5 session keys x {BF3, BEC2} for a hand-built component carrying the ENC tag, declared length "
-        "{len, half}; ('cfg', config, key, framing) = set_config with 4 configurations; ('fault', framing, i) = cipher unregistered, and the "
+        "{len, half}; ('cfg', config, key, framing) = set_config with 4 configurations; ('hist', ops) = every operation sequence of length <= 4 (5 thorough) on ONE live file object over {write with key 1 / key 2, replace the encrypted blob by 3 contents, set_config A / B, shorten the declared length} that contains at least two writes; ('fault', framing, i) = cipher unregistered, and the "
         "cipher failing at its i-th call for EVERY call index of the write. Oracle: stored payload == reference AES-128-CBC(zero IV, key, "
         "zero-padded content) at the place the independent parser finds it; read-back blob[:declared] == content with the encrypted flag; no "
         "needle (content, 8-byte windows of high-entropy values, session key, security code, customer key) in the binary or hex text; "
@@ -58,6 +58,14 @@ def cases(ctx):
         for k in range(5):
             for fr in ("bf3", "bec2"):
                 yield ("cfg", ci, k, fr)
+    # histories on ONE live file object: contents and keys change between writes; every write must store the ciphertext of
+    # the CURRENT content under the key of THAT write (nothing may be remembered from earlier writes)
+    depth = 4 if ctx.quick else 5
+    from itertools import product as _product
+    for n in range(1, depth + 1):
+        for seq in _product(range(len(HIST_OPS)), repeat=n):
+            if HIST_OPS[seq[-1]][0] == "write" and any(HIST_OPS[x][0] == "write" for x in seq[:-1]):
+                yield ("hist",) + seq
     for fr in ("bf3", "bec2"):
         yield ("fault", fr, "unregistered", 0)
         for i in range(0, 14):
@@ -153,6 +161,53 @@ def check_written(ctx, o, framing, content_list, comps_real, key, extra_needles,
     return o
 
 
+HIST_OPS = [("write", 0), ("write", 1), ("blob", 0), ("blob", 1), ("blob", 2), ("cfg", 0), ("cfg", 1), ("declared", 0)]
+
+
+def run_history(ctx, o, seq):
+    keys = [ctx.sym("c06-hk0"), ctx.sym("c06-hk1", 15) + b"\x00"]
+    blobs = [shapes.payload(ctx, "c06-hb0", 24, 0), shapes.payload(ctx, "c06-hb1", 24, 1), shapes.payload(ctx, "c06-hb2", 37, 2)]
+    cfgs = configs(ctx)[2]
+    comp = Bf3Component(dict(TAGS_ENC), blobs[0], None, encrypt_by_session_key=True)
+    f = Bf3File({"Note": "hist"}, [Bf3Component({0xC1: b"\x00"}, ctx.sym("c06-plain", 21)), comp])
+    writes = 0
+    for step, oi in enumerate(seq):
+        op, arg = HIST_OPS[oi]
+        if op == "blob":
+            comp.blob = blobs[arg]
+            comp.actual_len = len(blobs[arg])
+        elif op == "declared":
+            comp.actual_len = max(1, len(comp.blob) // 2)
+        elif op == "cfg":
+            f.set_config(dict(cfgs[arg * 3]))
+        else:
+            key = keys[arg]
+            stream = io.StringIO()
+            f.write_file(stream, key)
+            text = stream.getvalue()
+            writes += 1
+            binary = text_to_binary(text)
+            try:
+                parsed = L.validate(binary, 5, key)
+            except L.Reject as r:
+                return o.viol("history|layout", "after operations %r the written file is rejected by the independent parser: %s" % (seq[:step + 1], r))
+            for i, c in enumerate(f.components):
+                if not c.encrypt_by_session_key:
+                    continue
+                exp = A.cbc_encrypt(key, A.zero_pad(c.blob))
+                if parsed[i]["stored"] != exp:
+                    o.cls = "history-dependent"
+                    return o.viol("history|stale-ciphertext", "after operations %r component %d is not stored as the ciphertext of its CURRENT content under the key of this write" % (
+                        [HIST_OPS[x] for x in seq[:step + 1]], i))
+            back = Bf3File.read_file(io.StringIO(text), True, key)
+            for c, b in zip(f.components, back.components):
+                if c.encrypt_by_session_key and (b.blob[:b.actual_len] != c.blob[:c.actual_len] or b.actual_len != c.actual_len):
+                    o.cls = "history-dependent"
+                    return o.viol("history|read-back", "after operations %r reading back does not return the current content" % ([HIST_OPS[x] for x in seq[:step + 1]],))
+    o.extra = {"history_writes": writes}
+    return o
+
+
 class _FailingAES(plugin.AES128Proxy):
     calls = 0
     fail_at = 0
@@ -190,6 +245,8 @@ def run_case(ctx, case):
         if comp.actual_len != len(content) or not comp.encrypt_by_session_key:
             o2.viol("cfg|component", "configuration component is not marked encrypted with its full length")
         return o2
+    if kind == "hist":
+        return run_history(ctx, o, case[1:])
     if kind == "fault":
         _, fr, mode, idx = case
         key = key_of(ctx, 0)
